@@ -262,7 +262,8 @@ Section Machine.
   | OSolve (cb : bool) (is : list I) (dflt : I)
   | OFinalize
   | ORequestExit
-  | OSameEvalMonitor.      (* SetEvaluationMonitor handed the monitor already in use: nothing is prepended, nothing rebound, no Finalize *)
+  | OSameEvalMonitor      (* SetEvaluationMonitor handed the monitor already in use: nothing is prepended, nothing rebound, no Finalize *)
+  | OSetRangesCons (b : option (vec * vec)) (c : vec -> vec).   (* SetStrictRanges in the tight / clip modes: the ranges AND the function applied where constraints are (constraints.and_ of the user's constraints and the bounds function) *)
 
   Definition fin (sc : sys * C) : sys * C := finalize (fst sc) (snd sc).
 
@@ -288,6 +289,7 @@ Section Machine.
     | OFinalize => let sc' := fin sc in (fst sc', snd sc', MNone)
     | ORequestExit => (set_exit s true, c, MNone)
     | OSameEvalMonitor => (s, c, MNone)
+    | OSetRangesCons b k => let sc' := fin sc in (set_cons (set_box (fst sc') b) k, snd sc', MNone)
     end.
 
   Definition run (sc : sys * C) (ops : list op) : sys * C :=
@@ -306,4 +308,4 @@ Arguments bind {N A B}. Arguments run_prog {N} inf {R}.
 Arguments OSetObjective {N I}. Arguments OSetPenalty {N I}. Arguments OSetConstraints {N I}. Arguments OSetStrictRanges {N I}.
 Arguments OSetReducer {N I}. Arguments OSetLimits {N I}. Arguments OSetTermination {N I}. Arguments OSetEvalMonitor {N I}.
 Arguments OSetStepMonitor {N I}. Arguments OSetPopulation {N I}. Arguments OStep {N I}. Arguments OSolve {N I}.
-Arguments OFinalize {N I}. Arguments ORequestExit {N I}. Arguments OSameEvalMonitor {N I}.
+Arguments OFinalize {N I}. Arguments ORequestExit {N I}. Arguments OSameEvalMonitor {N I}. Arguments OSetRangesCons {N I}.
